@@ -457,12 +457,34 @@ def evaluate_cases(ctx, cases, parsed, name="cases", flame_fixed=False):
             i, "; ".join("cm %d %s" % (t, cb(cmm)) for t, cmm in dd["comms"]), cb(dd["version"]), cb(dd["date"]),
             "None" if dd["cmdline"] is None else "(Some %s)" % cb(dd["cmdline"]),
             "true" if dd["noev"] else "false", cb(dd["raw"])) for i, dd in docs)
+    # the validator itself against python's json on damaged documents (single-byte edits of real outputs)
+    muts = []
+    mrng = __import__("random").Random(ctx.subseed("muts"))
+    small = sorted((dd["raw"] for _, dd in docs), key=len)[:12]
+    for raw in small:
+        for _ in range(ctx.n(12, 60)):
+            b = bytearray(raw)
+            pos = mrng.randrange(len(b))
+            k = mrng.randrange(4)
+            if k == 0:
+                del b[pos]
+            elif k == 1:
+                b.insert(pos, mrng.choice(b'",:{}[]\\ 0.-e\n\tx\x00\x80'))
+            elif k == 2:
+                b[pos] = mrng.choice(b'",:{}[]\\ 0.-eE+\n1tfn\x1f\xc3')
+            else:
+                j = mrng.randrange(len(b))
+                b[pos], b[j] = b[j], b[pos]
+            muts.append(bytes(b))
+    defs += "Definition muts : list (list N) := [\n%s\n].\n" % ";\n".join(cb(m) for m in muts)
+    evals.append(("invalid_muts", "bad_indices json_ok muts 0"))
     evals.append(("mismatch_doc", "bad_indices agree_doc docs 0"))
     evals.append(("violation_doc", "bad_indices okc_doc docs 0"))
     res = coq.run_cases(ctx, name, PRE, defs, evals)
     if res is None:
         return None
     res = {k: coq.parse_nat_list(v) for k, v in res.items()}
+    res["muts"] = muts
     res["doc_owner"] = [i for i, _ in docs]
     res["doc_list"] = [dd for _, dd in docs]
     return res
@@ -842,6 +864,24 @@ def verdict(ctx, cases, parsed, res, flame_fixed=False):
             ctx.broken("the Coq JSON validator and python's json disagree on an implementation output (doc %d: coq=%s python=%s)"
                        % (j, j not in res["violation_doc"], py))
             break
+    def py_json_ok(b):
+        def bad(x):
+            raise ValueError(x)
+        try:
+            json.loads(b.decode("utf-8"), parse_constant=bad)
+            return True
+        except (ValueError, UnicodeDecodeError, RecursionError):
+            return False
+    nbad = 0
+    for j, mb in enumerate(res.get("muts", [])):
+        py = py_json_ok(mb)
+        nbad += not py
+        if py != (j not in res["invalid_muts"]):
+            ctx.broken("the Coq JSON validator and python's json disagree on a damaged document (coq=%s python=%s): %r"
+                       % (j not in res["invalid_muts"], py, mb[:2000]))
+            break
+    ctx.extra["validator_cross_checked_on_damaged_documents"] = len(res.get("muts", []))
+    ctx.extra["of_which_invalid"] = nbad
     if not anyviol and res.get("mismatch_doc"):
         j = res["mismatch_doc"][0]
         i = res["doc_owner"][j]
